@@ -3,9 +3,12 @@
 (* every generated transition prints the history of operations that leads to it.             *)
 EXTENDS RuleStore, Json
 \* list-based managers (flow, isolation, hotspot, circuit breaker), system (whole-set only), outlier
-MCListBased == [perRes |-> TRUE,  invalid |-> {"I1", "Nil"}, rejects |-> FALSE, ordered |-> TRUE]
-MCSystem    == [perRes |-> FALSE, invalid |-> {"I1", "Nil"}, rejects |-> FALSE, ordered |-> FALSE]
-MCOutlier   == [perRes |-> TRUE,  invalid |-> {"I1", "Nil"}, rejects |-> TRUE,  ordered |-> TRUE]
+\* near-equal variants: "R1a" / "R1b" differ from "R1" in one field, slightly (and from each other)
+MCNear      == [t \in {"R1a", "R1b", "R2a", "R2b", "R3a", "R3b"} |->
+                   IF t \in {"R1a", "R1b"} THEN "R1" ELSE IF t \in {"R2a", "R2b"} THEN "R2" ELSE "R3"]
+MCListBased == [perRes |-> TRUE,  invalid |-> {"I1", "Nil"}, rejects |-> FALSE, ordered |-> TRUE,  near |-> MCNear]
+MCSystem    == [perRes |-> FALSE, invalid |-> {"I1", "Nil"}, rejects |-> FALSE, ordered |-> FALSE, near |-> MCNear]
+MCOutlier   == [perRes |-> TRUE,  invalid |-> {"I1", "Nil"}, rejects |-> TRUE,  ordered |-> TRUE,  near |-> MCNear]
 MCDescs     == {MCListBased, MCSystem, MCOutlier}
 MCDescs1    == {MCListBased}
 MCDescsSys  == {MCSystem}
